@@ -2,6 +2,7 @@ mod common;
 mod sched;
 mod world;
 mod c01;
+mod c03;
 mod c06;
 mod reg;
 mod c14;
@@ -43,6 +44,7 @@ fn main() {
   let code = match id {
     "C01" => c01::run(tier, seed),
     "C02" => c15::run_c02(tier, seed),
+    "C03" => c03::run(tier, seed),
     "C06" => c06::run(tier, seed),
     "C07" => reg::run_c07(tier, seed),
     "C14" => c14::run(tier, seed),
